@@ -2,7 +2,7 @@
     process objects against gated stubs) in the Recorder model: the log must be a trace of the
     model.  Unobservable steps (pick, setBusy, spawn, setStopped, setIdle) are inserted right
     after the observable step that enables them. *)
-From Drummer.Model Require Import Base Jepsen Recorder.
+From Drummer.Model Require Import Base Jepsen Recorder RecorderAtomic.
 Open Scope N_scope.
 
 Inductive hobs :=
@@ -10,7 +10,8 @@ Inductive hobs :=
 | HStart (p : N)                      (* first rpc of the operation of p leaves the client *)
 | HRet (p : N) (r : rpcres)           (* the operation's last rpc returned to the client *)
 | HGate (p : N) (i : bool)            (* p is about to record its completion; idle flag seen *)
-| HFlags (p : N) (i st : bool).       (* flags of p after it went idle again *)
+| HFlags (p : N) (i st : bool)        (* flags of p after it went idle again *)
+| HEffect (p : N).                    (* the register service applied the operation of p (read: took its value) *)
 
 Definition last_event_is (s : state) (e : event) : bool :=
   match revents s with x :: _ => event_eqb x e | [] => false end.
@@ -39,6 +40,7 @@ Definition hstep (s : state) (h : hobs) : option state :=
   | HGate p i => if Bool.eqb (idle (procs s p)) i then Some s else None
   | HFlags p i st =>
     if Bool.eqb (idle (procs s p)) i && Bool.eqb (stopped (procs s p)) st then Some s else None
+  | HEffect _ => Some s
   end.
 
 (** number of observations replayed before the model got stuck (= length when all replayed) *)
@@ -59,3 +61,53 @@ Definition rstuck (n : N) (l : list hobs) : N := fst (hrun (init n) l 0).
 Definition ev (t r : N) (id v : N) : event :=
   mkEvent (if t =? 0 then TRead else TWrite)
           (if r =? 0 then RInvoked else if r =? 1 then RCompleted else RFailed) id v.
+
+(** * The same log replayed in the recorder composed with the atomic register (RecorderAtomic.v):
+    the run against the gated register service of the executor must be a trace of that system, so
+    that C07_accepts_linearizable speaks about it.  An effect observed while the rpc of p is in
+    flight is [AEffect p]; an effect observed later is the landing of a write that was reported
+    failed ([ALate p]) or, for a read / an operation nobody waits for, nothing. *)
+Definition ahstep (a : astate) (h : hobs) : option astate :=
+  match h with
+  | HEv e =>
+    match e_res e with
+    | RInvoked =>
+      match arun a [AL (LPick (e_id e) (etype_eqb (e_type e) TWrite)); AL LRecInvoke] with
+      | Some a' => if last_event_is (a_s a') e then arun a' [AL LSetBusy; AL LSpawn] else None
+      | None => None
+      end
+    | _ =>
+      match astep a (AL (LRecDone (e_id e))) with
+      | Some a' => if last_event_is (a_s a') e then astep a' (AL (LSetIdle (e_id e))) else None
+      | None => None
+      end
+    end
+  | HStart p => astep a (AL (LRpcStart p))
+  | HRet p r =>
+    match astep a (AL (LRpcReturn p r)) with
+    | Some a' => match r with RErr => astep a' (AL (LSetStopped p)) | ROk _ => Some a' end
+    | None => None
+    end
+  | HGate p i => if Bool.eqb (idle (procs (a_s a) p)) i then Some a else None
+  | HFlags p i st =>
+    if Bool.eqb (idle (procs (a_s a) p)) i && Bool.eqb (stopped (procs (a_s a) p)) st then Some a else None
+  | HEffect p =>
+    match pc (procs (a_s a) p) with
+    | CInRpc _ => astep a (AEffect p)
+    | _ => match a_late a p with Some _ => astep a (ALate p) | None => Some a end
+    end
+  end.
+
+Fixpoint ahrun (a : astate) (l : list hobs) (k : N) : N * option astate :=
+  match l with
+  | [] => (k, Some a)
+  | h :: l' => match ahstep a h with Some a' => ahrun a' l' (k + 1) | None => (k, None) end
+  end.
+
+Definition arcase (n : N) (l : list hobs) : bool :=
+  match snd (ahrun (ainit n) l 0) with
+  | Some a => obs_ok (observations (a_s a)) && wf_events (events (a_s a))
+  | None => false
+  end.
+
+Definition arstuck (n : N) (l : list hobs) : N := fst (ahrun (ainit n) l 0).
